@@ -68,6 +68,24 @@ func c06Start(e *harness.ProxyEnv, host, target string) (*c06Flow, *harness.Resp
 	return f, resp
 }
 
+// c06StartWith starts a flow like c06Start, with extra request header lines.
+func c06StartWith(e *harness.ProxyEnv, host, target string, extra []string) *c06Flow {
+	raw := "GET " + target + " HTTP/1.1\r\nHost: " + host + "\r\n"
+	for _, l := range extra {
+		raw += l + "\r\n"
+	}
+	resp, err := e.DoRaw(raw + "Connection: close\r\n\r\n")
+	if err != nil || resp.Status != 302 || !strings.Contains(resp.Location, "/sign_in?") {
+		return nil
+	}
+	u, err := url.Parse(resp.Location)
+	ck := resp.Cookie(c06CSRF)
+	if err != nil || ck == nil {
+		return nil
+	}
+	return &c06Flow{Host: host, Target: target, State: u.Query().Get("state"), Cookie: ck.Value}
+}
+
 func c06Redeem(x *explore.Exec, e *harness.ProxyEnv, kinds []string) {
 	e.Auth.Answer = func(c *harness.AuthCall) harness.AuthAnswer {
 		a := ans(500, "unexpected")
@@ -196,6 +214,109 @@ func c06Run(c *fw.Ctx) {
 		}
 	})
 
+	// ---- part 3: the rules of the upstream that serves the request's Host ---------------------
+	// Two upstreams with different rules behind one proxy: hostA admits an email domain, hostB a group.
+	// A complete honest flow (start and callback, same headers) x user x what the authenticator's
+	// profile endpoint answers at that moment x a client-supplied header naming the other upstream.
+	yr := "- service: svca\n  default:\n    from: " + hostA + "\n    to: {{backend:a}}\n    options:\n      allowed_email_domains:\n        - corp.test\n" +
+		"- service: svcg\n  default:\n    from: " + hostB + "\n    to: {{backend:b}}\n    options:\n      allowed_groups:\n        - eng\n"
+	er, err := harness.NewProxyEnv(harness.ProxyOpts{YAML: yr, Backends: []string{"a", "b"}, TemplateVars: map[string]string{}})
+	if err != nil {
+		panic(explore.HarnessError{Msg: err.Error()})
+	}
+	defer er.Close()
+	type c06User struct {
+		email  string
+		groups []string
+	}
+	users := []c06User{{"bob@corp.test", []string{"eng"}}, {"erin@corp.test", []string{"sales"}}, {"dave@other.test", []string{"eng"}}, {"gina@other.test", nil}}
+	profiles := []string{"200", "429", "503", "500", "reset", "200-not-json"}
+	fwdHeaders := []string{"", "X-Forwarded-Host", "X-Original-Host", "Forwarded"}
+	drive(c, "rules", -1, func(x *explore.Exec, owned bool) {
+		host := hosts[x.Choose("host", 2)]
+		u := users[x.Choose("user", len(users))]
+		prof := profiles[x.Choose("profile-answer", len(profiles))]
+		fh := fwdHeaders[x.Choose("forwarding-header", len(fwdHeaders))]
+		otherHost := hostA
+		if host == hostA {
+			otherHost = hostB
+		}
+		var extra []string
+		switch fh {
+		case "":
+		case "Forwarded":
+			extra = []string{"Forwarded: host=" + otherHost + ";proto=https"}
+		default:
+			extra = []string{fh + ": " + otherHost}
+		}
+		er.Auth.Answer = func(ac *harness.AuthCall) harness.AuthAnswer {
+			switch ac.Endpoint {
+			case "redeem":
+				return ans(200, `{"access_token":"at","refresh_token":"rt","expires_in":3600,"email":"`+u.email+`"}`)
+			case "profile":
+				switch prof {
+				case "200":
+					return ans(200, harness.JSON(map[string]interface{}{"email": u.email, "groups": u.groups}))
+				case "429":
+					return harness.AuthAnswer{Status: 429, Body: "slow down", Header: map[string]string{"Retry-After": "1"}}
+				case "503":
+					return ans(503, "unavailable")
+				case "500":
+					return ans(500, "boom")
+				case "reset":
+					return harness.AuthAnswer{Reset: true}
+				}
+				return ans(200, "<html>maintenance</html>")
+			}
+			return ans(500, "unexpected")
+		}
+		f := c06StartWith(er, host, "/start-here", extra)
+		if f == nil {
+			if owned {
+				c.Res.Outcome(fmt.Sprintf("rules-no-flow|%v|%s", host == hostA, fh))
+			}
+			return
+		}
+		raw := "GET /oauth2/callback?code=the-code&state=" + url.QueryEscape(f.State) + " HTTP/1.1\r\nHost: " + host + "\r\nCookie: " + c06CSRF + "=" + f.Cookie + "\r\n"
+		for _, l := range extra {
+			raw += l + "\r\n"
+		}
+		resp, err := er.DoRaw(raw + "Connection: close\r\n\r\n")
+		if err != nil {
+			panic(explore.HarnessError{Msg: "raw request failed: " + err.Error()})
+		}
+		if !owned {
+			return
+		}
+		desc := map[string]interface{}{"host": host, "rule_of_that_upstream": map[bool]string{true: "allowed_email_domains [corp.test]", false: "allowed_groups [eng]"}[host == hostA], "user": u.email, "user_groups": u.groups,
+			"profile_endpoint_answers": prof, "client_header": strings.Join(extra, ""), "status": resp.Status, "location": resp.Location}
+		sc := resp.Cookie(harness.CookieName)
+		sessionSet := sc != nil && sc.Value != ""
+		c.Res.Outcome(fmt.Sprintf("rules|%v|%s|%s|%s|%d|%v", host == hostA, u.email, prof, fh, resp.Status, sessionSet))
+		if !sessionSet {
+			return
+		}
+		passes := strings.HasSuffix(u.email, "@corp.test")
+		if host == hostB {
+			passes = prof == "200" && len(u.groups) > 0 && u.groups[0] == "eng"
+		}
+		viol := func(key, what string) {
+			c.Res.Violate(fw.Violation{Property: "C06", Key: "C06/rules/" + key, What: what, Scenario: "rules", Choices: x.Choices(), Detail: desc})
+		}
+		if !passes {
+			k := "session-for-user-failing-the-rules/" + map[bool]string{true: "domain-upstream", false: "group-upstream"}[host == hostA] + "/profile=" + prof
+			if fh != "" {
+				k += "/client-names-other-upstream"
+			}
+			viol(k, fmt.Sprintf("a session was set on %s for %s (groups %v; profile endpoint answered %s), who does not pass that upstream's rule", host, u.email, u.groups, prof))
+		} else {
+			c.Res.Count("positive_rules_session_set", 1)
+		}
+		if s := er.Open(sc.Value); s == nil || s.AuthorizedUpstream != host {
+			viol("session-bound-to-wrong-host", fmt.Sprintf("the session that was set is not bound to the request Host %q", host))
+		}
+	})
+
 	// ---- part 2: request targets that start a flow ------------------------------------------
 	segs := []string{"a", "", ".", "..", "%2f", "%5c", "\\", "evil.test", "@evil.test", "%2e%2e", ";x"}
 	suffixes := []string{"", "?next=//evil.test/", "?a=1#//evil.test"}
@@ -283,6 +404,7 @@ func init() {
 		Level: "exploration",
 		Rule: "(callback) three real flows started through the proxy (A, A' = the same URL started a second time, B on another upstream host) crossed with every combination of state {absent, garbage, state_A, state_A', state_B, cookie_A as state, re-encoded cookie_A, sealed under another key} x CSRF cookie {absent, garbage, cookie_A, cookie_A', cookie_B, state_A as cookie} x code {absent, redeemable allowed user, redeemable denied user, rejected, authenticator 503} x error {absent, set} x Host {A, B}; " +
 			"(target) every origin-form request target built from segments {a, empty, ., .., %2f, %5c, backslash, evil.test, @evil.test, %2e%2e, ;x} to depth 2 (quick) / 3 (thorough) x {no query, query naming another authority, fragment naming another authority}, plus absolute-form targets naming the upstream's own host, sent as raw bytes; each started flow is completed honestly. " +
+			"(rules) two upstreams with different rules (an email domain; a group) behind one proxy: a complete honest flow x Host {2} x user {4: passes both, domain only, group only, neither} x the authenticator's profile answer at that moment {200, 429, 503, 500, reset, 200 not JSON} x a client header naming the other upstream {none, X-Forwarded-Host, X-Original-Host, Forwarded}: a session is set only for a user passing the rule of the upstream serving the request Host (for a group rule: the profile endpoint answered and listed an allowed group), bound to that Host. " +
 			"Oracle ('only when'): session cookie set => state and cookie both sealed by this proxy, different ciphertexts, equal flow records, code redeemed for a user that passes the rules, no error parameter; session bound to the request Host; Location = recorded URI and resolves to the same host under an RFC 3986 reading and a browser-style reading. " +
 			"distinct_nontrivial = distinct (state, cookie, code, error, host, status, session set) and (target class, same host) signatures",
 		Assumptions:    []string{"the browser-style reading is a simplified WHATWG parser (C0/space stripping, TAB/LF/CR removal, backslash as slash, scheme case folding, slash-count tolerance)"},
